@@ -43,22 +43,33 @@ def relevant(prop, rec, res):
 T_ENG = "both engines are verified to refine EngineSpec (contracts/engine_spec.py) for every argument-shape configuration the element layer produces"
 T_VIEW = "the ghost view of Network lookups (contracts/ghost.py: what in_links/out_links/origins*/destinations*/nodes_by_link return on a well-formed, valid network) is assumed at the element layer"
 
+T_FUN = "casadi.Function: raises unless its inputs are stacks of distinct symbols and no output symbol is free; calling it substitutes arguments for input symbols (assumed contract, pyvc/libmodels/casadi_model.py)"
+T_SPINE = "layout functions are executed on five fixed element lists (spines, 2-8 elements covering every class, repeated classes and both orders) with symbolic segment counts and symbols: bounded in the number of elements"
+T_NX = "networkx.DiGraph and its views at region granularity (pyvc/libmodels/nx_graph.py): what each call reads/writes, views are live, edge iteration order = node order then successor order"
+
 PROPS = {
     "C01": {
         "level": "proof",
-        "bounded": True,
-        "explanation": "every function on the step path is executed symbolically from the real source and must return the METANET value of specs/metanet.py (Hegyi 2004) over the ghost view; callers are checked against callee contracts",
-        "trusted_base": [T_VIEW],
+        "explanation": "every function on the step path (constructors, init_vars, Network.step, ElementWithVars.step, step_dynamics of links and origins, node and origin/destination laws, both engines' primitives) is executed symbolically from the real source and must return the METANET value of specs/metanet.py (Hegyi 2004) over the ghost view; callers are checked against callee contracts",
+        "trusted_base": [T_VIEW, "composition of the per-function contracts into the network-level statement (Network.step calls init_vars on all elements, then step on origins and links) is by the call-structure obligations of Network.step"],
         "assumptions": ["KF1 (known finding): the guarded mainstream-origin flow differs from Hegyi 3.3.3 for 0 < v_lim/v_free < 0.05"],
     },
-    "C02": {"level": "proof", "bounded": True, "explanation": "node balance and link telescoping as lemmas over the postconditions of C01; network-wide balance by the Lean lemma network_balance", "trusted_base": [T_VIEW, "hand transcription of the two postconditions into the hypotheses of lemmas/Metanet.lean:network_balance"]},
-    "C07": {"level": "proof", "bounded": True, "explanation": "safety half of all contracts: no exception, shapes, partial operations inside their domains under the admissible precondition", "trusted_base": [T_VIEW]},
-    "C10": {"level": "proof", "bounded": True, "explanation": "the proved postconditions are stated through spec functions whose state reads are checked, case by case, to lie inside the allowed footprint", "trusted_base": [T_VIEW]},
-    "C11": {"level": "proof", "bounded": True, "explanation": "flags are symbolic Booleans; each result is proved equal to ite(flag, max(0, R), R) with R the plain law", "trusted_base": [T_VIEW]},
-    "C12": {"level": "proof", "bounded": True, "explanation": "every in-place write is proved to target a value created by the same call (obligations fresh/frame); element-layer functions are verified against a read-only heap", "trusted_base": [T_VIEW, "numpy view/copy semantics as modelled in pyvc/arrays.py"]},
-    "C13": {"level": "proof", "bounded": True, "explanation": "every call on the step path is obliged to receive the caller's engine; with an explicit engine any read of the selected engine fails a noglobal obligation", "trusted_base": [T_VIEW]},
-    "C14": {"level": "proof", "bounded": True, "explanation": "share and scaling invariance as lemmas (induction discharged by z3) over the proved postcondition of Node.get_upstream_speed_and_flow; order/name independence because the specs aggregate over link sets and names are opaque tokens", "trusted_base": [T_VIEW, "Lean lemma sum_enum (finite sums are independent of the enumeration)"]},
-    "C15": {"level": "proof", "bounded": True, "explanation": "each of the 17 primitives x 2 engines is proved equal, at a generic index for symbolic lengths, to one spec value; equality of the engines follows", "trusted_base": []},
-    "C17": {"level": "proof", "bounded": True, "explanation": "bounds proved as lemmas over the EngineSpec values (which both engines refine); the mainstream bound uses the Lean lemma fd_max", "trusted_base": ["Lean lemma fd_max and the exp/log/rpow facts (lemmas/Metanet.lean), instantiated as SMT hypotheses"]},
-    "C18": {"level": "proof", "bounded": True, "explanation": "neutral-control identities and monotonicity proved as lemmas over the EngineSpec values; 'infinite' is 'at least every value it is compared with'", "trusted_base": ["IEEE +inf behaving like such a value is assumed (bounded stand-in samples it)"]},
+    "C02": {"level": "proof", "explanation": "node balance (induction over the leaving links) and link telescoping (induction over the segments) as lemmas over the postconditions proved for C01, discharged by z3; the network-wide sum is the Lean lemma network_balance", "trusted_base": [T_VIEW, "hand transcription of the two postconditions into the hypotheses of lemmas/Metanet.lean:network_balance"]},
+    "C03": {"level": "other", "explanation": "lemma over contracts: (i) both engines refine EngineSpec for every primitive (proved), (ii) the element layer is verified against EngineSpec only (proved), (iii) to_function outputs the elements' next_states and takes exactly their symbols as inputs (layout obligations on bounded spines), (iv) calling a casadi.Function substitutes arguments (assumed). SX and MX share every contract except _filter_vars (both branches verified).", "trusted_base": [T_VIEW, T_FUN, T_SPINE]},
+    "C04": {"level": "other", "explanation": "layout of arguments/results (names, order, stacking per compactness level, parameters last, result k = successor of state argument k, no free symbol) checked by executing to_function, its helpers and Network.elements/states/... symbolically against the layout written from the property statement; element enumeration order links-origins-destinations", "trusted_base": [T_FUN, T_SPINE]},
+    "C05": {"level": "other", "explanation": "extra outputs are Link.get_flow of every link and origin.get_flow(net, engine, **parameters, **other_parameters) of every origin, in enumeration order - the same calls (same contract term) the queue update and the node inflow use; Link.get_flow = rho*v*lanes and the step_dynamics postconditions are proved", "trusted_base": [T_VIEW, T_FUN, T_SPINE]},
+    "C06": {"level": "other", "explanation": "is_valid itself (four loops with a duplicate count) is outside the prover's reach: decided by the bounded stand-in (exhaustive small graphs incl. self-loops, cycles, shared and same-named objects, plus random larger ones) against the nine documented conditions; the per-node link views it relies on are verified (views.py)", "trusted_base": [T_NX]},
+    "C07": {"level": "proof", "explanation": "safety half of all contracts: no exception, indices/keys/asserts, shapes (next state = state), engine primitives keep every partial operation inside its domain under the admissible precondition (both engines, all argument-shape configurations incl. the NumPy engine's own (1,) variables and exact zeros)", "trusted_base": [T_VIEW, T_FUN, T_SPINE, "finiteness at the element layer: the admissible-domain preconditions of the primitives are assumed to be met by admissible states (checked natively by the bounded stand-in)"]},
+    "C08": {"level": "proof", "explanation": "representation invariant: a cached lookup is either dropped by the mutator (the real invalidate_cache wrapper is interpreted) or cannot change because the graph regions it reads are disjoint from the regions the mutator writes; holds after every interleaving of mutators and reads (no bound on histories)", "trusted_base": [T_NX]},
+    "C09": {"level": "other", "explanation": "each add_* makes exactly the described networkx call (node, edge direction, attribute key, replace on existing node) - proved; add_path is executed for every path shape up to length 5 (bounded) with and without origin/destination: accepted iff well-formed, only Node objects ever reach add_node/add_origin/add_destination", "trusted_base": [T_NX, "add_path: path length <= 5 (bounded)"]},
+    "C10": {"level": "proof", "explanation": "the proved postconditions are stated through spec functions whose state reads are checked, case by case, to lie inside the allowed footprint", "trusted_base": [T_VIEW]},
+    "C11": {"level": "proof", "explanation": "flags are symbolic Booleans; init_vars results are proved equal to ite(flag, max(0, given), given), step_dynamics results to ite(flag, max(0, R), R); Network.step is proved to forward each flag to the parameter of the same name and to no other call", "trusted_base": [T_VIEW]},
+    "C12": {"level": "proof", "explanation": "every in-place write is proved to target a value created by the same call (fresh/frame obligations), init_vars leaves the supplied dict and arrays untouched, step writes only next_states, element-layer functions run against a read-only heap; repeatability because every postcondition is a function of the supplied values only (prior states/next_states arbitrary)", "trusted_base": [T_VIEW, "numpy view/copy semantics as modelled in pyvc/arrays.py"]},
+    "C13": {"level": "proof", "explanation": "use/get_current_engine verified from an arbitrary prior selection state; every call on the step path is obliged to receive the caller's engine; with an explicit engine any read of the selected engine fails a noglobal obligation", "trusted_base": [T_VIEW]},
+    "C14": {"level": "proof", "explanation": "share and scaling invariance as lemmas (induction discharged by z3) over the proved postcondition of Node.get_upstream_speed_and_flow; order/name independence because the specs aggregate over link sets and names are opaque tokens that cannot enter arithmetic", "trusted_base": [T_VIEW, "Lean lemma sum_enum (finite sums are independent of the enumeration)"]},
+    "C15": {"level": "proof", "explanation": "each of the 17 primitives x 2 engines is proved equal, at a generic index for symbolic lengths, to one spec value; equality of the engines follows", "trusted_base": []},
+    "C16": {"level": "other", "explanation": "strata A and B are verified with every model parameter an arbitrary real (= the denotation of a symbol under every valuation) or a 1x1 CasADi symbol, and no python-level truth test may involve a parameter that can be symbolic; parameters are appended as trailing inputs in declaration order / stacked as p (layout obligations, bounded spines, with same-named symbols declared interleaved)", "trusted_base": [T_VIEW, T_FUN, T_SPINE]},
+    "C17": {"level": "proof", "explanation": "bounds proved as lemmas over the EngineSpec values (which both engines refine); the mainstream bound uses the Lean lemma fd_max", "trusted_base": ["Lean lemma fd_max and the exp/log/rpow facts (lemmas/Metanet.lean), instantiated as SMT hypotheses"]},
+    "C18": {"level": "proof", "explanation": "neutral-control identities and monotonicity proved as lemmas over the EngineSpec values; 'infinite' is 'at least every value it is compared with'", "trusted_base": ["IEEE +inf behaving like such a value is assumed (the bounded stand-in runs real np.inf)"]},
+    "C19": {"level": "other", "explanation": "readiness scan of to_function proved for a symbolic number of elements of symbolic class and initialisation status (raises RuntimeError iff some element is not ready); ElementWithVars.step stores exactly the values of this call; outputs are the current next_states and a stale next state (symbols no longer among the inputs) makes casadi.Function raise - on bounded spines", "trusted_base": [T_FUN, T_SPINE]},
 }
